@@ -5,6 +5,7 @@
 -/
 import MosVerif.Lemmas.RouterBasic
 import MosVerif.Model.RouterIO
+import MosVerif.Lemmas.LoadCfgLemmas
 namespace MosVerif.C10
 open MosVerif.Wire MosVerif.Router
 
@@ -109,6 +110,92 @@ example :
     let env : Env := ⟨false, .none, [⟨some [[3, 99, 111, 109]], false, 3, none⟩, ⟨none, false, 0, some 0⟩], [.fail]⟩
     let q : Question := ⟨[1, 97, 3, 99, 111, 109], 1, 1⟩
     (handleReq env q).1.hdr.rcode = 3 ∧ (handleReq env q).2.2 = [] := by decide
+
+/-- ★ `load_ok_iff`: the router starts iff the configuration has no unknown key, every upstream has a
+    non-empty unique tag and an address, every domain set a non-empty unique tag, and every rule's
+    `domain` / `forward` reference names an existing domain set / upstream — for every configuration. -/
+theorem load_ok_iff (c : LoadCfg.Cfg) : LoadCfg.accepts c = LoadCfg.specAccepts c := by
+  unfold LoadCfg.accepts LoadCfg.specAccepts
+  by_cases hu : c.unknownKey = true
+  · simp [hu]
+  · simp only [hu, Bool.false_eq_true, ↓reduceIte, Bool.not_false, Bool.true_and]
+    have hup := LoadCfg.loadUpstreams_spec [] c.upstreams
+    cases hl : LoadCfg.loadUpstreams [] c.upstreams with
+    | none =>
+      -- some upstream is rejected: the specification's upstream clauses fail
+      have : ¬ ((c.upstreams.map (·.1)).all (· ≠ "") = true ∧ (c.upstreams.map (·.1)).Nodup ∧ c.upstreams.all (·.2) = true ∧
+          ∀ x ∈ c.upstreams.map (·.1), x ∉ ([] : List String)) := by
+        intro h
+        obtain ⟨r, hr, _⟩ := hup.mpr h
+        rw [hl] at hr; cases hr
+      simp only
+      by_cases h1 : (c.upstreams.map (·.1)).all (· ≠ "") = true
+      · by_cases h2 : (c.upstreams.map (·.1)).Nodup
+        · by_cases h3 : c.upstreams.all (·.2) = true
+          · exact absurd ⟨h1, h2, h3, by simp⟩ this
+          · rw [Bool.not_eq_true] at h3; rw [h3]; simp
+        · have : decide (c.upstreams.map (·.1)).Nodup = false := by simpa using h2
+          rw [this]; simp
+      · rw [Bool.not_eq_true] at h1; rw [h1]; simp
+    | some ups =>
+      have hspec := hup.mp ⟨ups, hl, by
+        have := LoadCfg.loadUpstreams_mem c.upstreams ups hl
+        intro x
+        have hx := this x
+        simp only [List.not_mem_nil, false_or]
+        constructor
+        · intro h; have : ups.contains x = true := by simpa using h
+          rw [hx] at this; simpa using this
+        · intro h; have : (c.upstreams.map (·.1)).contains x = true := by simpa using h
+          rw [← hx] at this; simpa using this⟩
+      obtain ⟨h1, h2, h3, _⟩ := hspec
+      simp only [h1, h2, h3, decide_true, Bool.true_and]
+      have hds := LoadCfg.loadUpstreams_spec [] (c.domainSets.map (fun t => (t, true)))
+      rw [LoadCfg.loadDomainSets_eq]
+      have hmap : (c.domainSets.map (fun t => (t, true))).map (·.1) = c.domainSets := by simp [List.map_map, Function.comp_def]
+      cases hd : LoadCfg.loadUpstreams [] (c.domainSets.map (fun t => (t, true))) with
+      | none =>
+        have : ¬ (c.domainSets.all (· ≠ "") = true ∧ c.domainSets.Nodup) := by
+          intro h
+          have := hds.mpr (by rw [hmap]; exact ⟨h.1, h.2, by simp, by simp⟩)
+          obtain ⟨r, hr, _⟩ := this
+          rw [hd] at hr; cases hr
+        simp only
+        by_cases g1 : c.domainSets.all (· ≠ "") = true
+        · by_cases g2 : c.domainSets.Nodup
+          · exact absurd ⟨g1, g2⟩ this
+          · have : decide c.domainSets.Nodup = false := by simpa using g2
+            rw [this]; simp
+        · rw [Bool.not_eq_true] at g1; rw [g1]; simp
+      | some dss =>
+        have hspec2 := hds.mp ⟨dss, hd, by
+          have := LoadCfg.loadUpstreams_mem _ dss hd
+          intro x
+          have hx := this x
+          simp only [List.not_mem_nil, false_or]
+          constructor
+          · intro h; have : dss.contains x = true := by simpa using h
+            rw [hx] at this; simpa using this
+          · intro h; have : ((c.domainSets.map (fun t => (t, true))).map (·.1)).contains x = true := by simpa using h
+            rw [← hx] at this; simpa using this⟩
+        rw [hmap] at hspec2
+        obtain ⟨g1, g2, _, _⟩ := hspec2
+        simp only [g1, g2, decide_true, Bool.true_and]
+        rw [LoadCfg.loadRules_spec]
+        -- the tables have exactly the configured tags
+        have hu' := LoadCfg.loadUpstreams_mem c.upstreams ups hl
+        have hd' := LoadCfg.loadUpstreams_mem _ dss hd
+        rw [hmap] at hd'
+        congr 1
+        funext p
+        obtain ⟨d, f⟩ := p
+        simp only [hu' f, hd' d]
+
+/-- non-vacuity: a configuration that is accepted and three that are not -/
+example : LoadCfg.accepts ⟨[("u0", true)], ["ds"], [("ds", "u0"), ("", "")], false⟩ = true := by decide
+example : LoadCfg.accepts ⟨[("u0", true)], ["ds"], [("ds", "u1")], false⟩ = false := by decide
+example : LoadCfg.accepts ⟨[("u0", true), ("u0", true)], [], [], false⟩ = false := by decide
+example : LoadCfg.accepts ⟨[("u0", true)], [], [], true⟩ = false := by decide
 
 /-- tie: the rule scan (first match wins: one `break`), `reverse`, reject-before-forward, REFUSED for
     no rule / no action, strict configuration decoding and the tag checks at start-up. -/
